@@ -20,6 +20,28 @@ Ltac unz Hin Hnz := match type of Hin with In (t_typ ?t) ?u =>
   assert (Hnz : t_typ t <> 0) by (let X := fresh "X" in intro X; rewrite X in Hin; cbn [In] in Hin;
     repeat (destruct Hin as [Hin|Hin]; [vm_compute in Hin; discriminate|]); exact Hin) end.
 
+(* facts after a backup that follows the next recorded in R *)
+Ltac cbk R := match type of R with ParserBase.cnrel ?a ?b ?c ?s ?t ?s1 =>
+  match goal with Hs : ParserBase.cinv a b c s |- _ =>
+    let A := fresh "A" in let B := fresh "B" in let C := fresh "C" in
+    destruct (c_backup_after a b c s t s1 Hs R) as (A & B & C) end end.
+(* facts after backup2(t1) that follows the next recorded in R; E : t_typ t1 = <constant> *)
+Ltac cbk2 R E := match type of R with ParserBase.cnrel ?a ?b ?c ?s ?t ?s1 =>
+  match type of E with t_typ ?t1 = _ =>
+  match goal with Hs : ParserBase.cinv a b c s, Hk : (p_peek (c_p s) <= 1)%nat,
+                  Hc : t1 = cur_tok (c_p s), Hw : ParserMeasure.twf _ t1 |- _ =>
+    let Hnz := fresh "Hnz" in let Hne := fresh "Hne" in
+    assert (Hnz : t_typ t1 <> 0) by (rewrite E; vm_compute; intro; discriminate);
+    assert (Hne : t_typ t1 <> pit_EOF) by (rewrite E; vm_compute; intro; discriminate);
+    let A := fresh "A" in let B := fresh "B" in let C := fresh "C" in
+    destruct (c_backup2_rel a b c s t s1 t1 Hs Hk Hc Hnz Hne Hw R) as (A & B & C) end end end.
+(* facts after a backup over the until-item itemList stopped at *)
+Ltac cbnz s Hin :=
+  match goal with Hs : ParserBase.cinv ?a ?b ?c s, Hk : (p_peek (c_p s) <= 1)%nat |- _ =>
+   let Hnz := fresh "Hnz" in unz Hin Hnz;
+   let A := fresh "A" in let B := fresh "B" in let C := fresh "C" in let En := fresh "En" in
+   destruct (c_backup_nz a b c s Hs Hk Hnz) as (A & B & C & En) end.
+
 Section Cmd.
 Variable inlen : N.
 Variable NT : nat.
@@ -37,7 +59,7 @@ Notation clpz s := (lpz (c_p s)).
 Notation ckap s := (kap (c_p s)).
 Notation cpeek s := (p_peek (c_p s)).
 Notation ccur s := (cur_tok (c_p s)).
-Notation pqe := (parse_quoted_expr lexq parse_expr expr_fuel).
+Notation pqe := (parse_quoted_expr inlen lexq parse_expr expr_fuel).
 
 Definition wpost (until : list N) (s : cst) : node -> cst -> Prop :=
   fun _ s' => (cmu s' < cmu s)%nat /\ (cpeek s' <= 1)%nat /\ In (t_typ (ccur s')) until.
@@ -54,11 +76,11 @@ Variable lf : nat.
 Hypothesis Hlf : (L <= lf)%nat.
 
 Ltac cpe n s1 H :=
-  eapply cpost_bind; [apply Hpe; [solve [auto]|unfold kap in *; lia|lia]|]; intros n s1 ?Hi ?Hb H; cbn beta in H.
+  nzs; eapply cpost_bind; [apply Hpe; [solve [auto]|unfold kap in *; lia|lia]|]; intros n s1 ?Hi ?Hb H; cbn beta in H.
 Ltac cw n s1 H :=
-  eapply cpost_bind; [apply Hw; [uok|solve [auto]|unfold kap in *; lia|lia]|]; intros n s1 ?Hi ?Hb H;
+  nzs; eapply cpost_bind; [apply Hw; [uok|solve [auto]|unfold kap in *; lia|lia]|]; intros n s1 ?Hi ?Hb H;
   unfold wpost in H; cbn beta in H.
-Ltac cuse lem := eapply cpost_weaken; [apply lem; auto; unfold kap in *; try lia|]; intros; cbn beta in *; try lia.
+Ltac cuse lem := nzs; eapply cpost_weaken; [apply lem; auto; unfold kap in *; try lia|]; intros; cbn beta in *; try lia.
 
 (* ---- print ---- *)
 Lemma directive_args_ok : forall f args s b,
@@ -70,7 +92,7 @@ Proof.
   destruct (tis nx pit_Colon || tis nx pit_Comma) eqn:E.
   - assert (Hnz : t_typ nx <> 0) by (intro X; unfold tis in E; rewrite X in E; vm_compute in E; discriminate).
     cpe a s2 H2. cuse IH.
-  - destruct (c_backup_after inlen NT eofchk _ _ _ Hi R) as (A & B & C). cfin.
+  - cbk R. cfin.
 Qed.
 
 Lemma cmd_print_loop_ok : forall f pos expr dirs s b,
@@ -141,7 +163,7 @@ Proof.
     + rewrite cbind_assoc. apply next_non_comment_step; auto; unfold kap in *; try lia.
       intros sp tk s' A1 B1 C1 D1 E1. apply (IH sp); auto; try lia.
       intros sp2 tk2 s2 A2 B2 C2 D2 E2. apply (K sp2); auto; lia.
-    + cbn [cbind]. cerr.
+    + eapply cpost_bind with (Q1 := fun _ _ => False); [cerr|intros; contradiction].
   - cbn [cbind]. apply (K s0); auto.
 Qed.
 
@@ -177,9 +199,7 @@ Proof.
   tcase initial pit_LeftDelim E; cbn [negb]; [|cerr].
   tnz E Hnz. cnext cmd s3 R3. dcn R3.
   tcase cmd pit_CallEnd E3.
-  { assert (Hne : t_typ initial <> pit_EOF) by (rewrite E; nzc).
-    destruct (c_backup2_rel inlen NT eofchk s2 cmd s3 initial Hi2 Rpk1 Rcur Hnz Hne Rtw R3) as (A & B & C).
-    cfin. }
+  { cbk2 R3 E. cfin. }
   tcase cmd pit_Param E4; cbn [negb]; [|cerr].
   tnz E4 Hnz4. cexpect first s4 H4. destruct H4 as (M4 & K4 & C4 & T4 & W4 & S4).
   cnext tk s5 R5. dcn R5.
@@ -187,18 +207,16 @@ Proof.
   { tnz E5 Hnz5. cpe v s6 H6. cexpect t7 s7 H7. cuse IH. }
   tcase tk pit_RightDelim E6.
   { tnz E6 Hnz6. cw v s6 H6. cexpect t7 s7 H7. cuse IH. }
-  assert (Hrec : forall ps s' b', cinv s' -> ckap s' = b' -> (cmu s' < cmu s4)%nat ->
+  assert (Hrec : forall ps s' b', cinv s' -> ckap s' = b' -> (cmu s' < cmu s3)%nat ->
              cpost b' (fun _ s'' => (cmu s'' <= cmu s')%nat)
                (call_params_loop inlen lexq unq parse_expr expr_fuel pe w lf f ps s')).
   { intros ps s' b' X1 X2 X3. apply IH; auto; lia. }
   tcase tk pit_Ident E7.
-  { destruct (c_backup_after inlen NT eofchk _ _ _ Hi3 R5) as (A & B & C).
-    cuse (param_attr_form_ok (call_params_loop inlen lexq unq parse_expr expr_fuel pe w lf f)). }
+  { cbk R5.
+    eapply cpost_weaken; [apply (param_attr_form_ok _ _ _ _ _ _ (cmu s3) Hrec); auto; unfold kap in *; lia|]; intros; cbn beta in *; lia. }
   tcase tk pit_Equals E8.
-  { assert (Hnzf : t_typ first <> 0) by (rewrite T4; nzc).
-    assert (Hne : t_typ first <> pit_EOF) by (rewrite T4; nzc).
-    destruct (c_backup2_rel inlen NT eofchk s4 tk s5 first Hi3 K4 C4 Hnzf Hne W4 R5) as (A & B & C).
-    cuse (param_attr_form_ok (call_params_loop inlen lexq unq parse_expr expr_fuel pe w lf f)). }
+  { cbk2 R5 T4.
+    eapply cpost_weaken; [apply (param_attr_form_ok _ _ _ _ _ _ (cmu s3) Hrec); auto; unfold kap in *; lia|]; intros; cbn beta in *; lia. }
   cerr.
 Qed.
 
@@ -239,8 +257,7 @@ Proof.
   tcase tk pit_Comma E. { tnz E Hnz. cuse IH. }
   tcase tk pit_RightDelim E2; [|cerr].
   tnz E2 Hnz. cw body s3 H3. destruct H3 as (M3 & K3 & I3).
-  unz I3 Hnz3.
-  destruct (c_backup_nz inlen NT eofchk s3 Hi3 K3 Hnz3) as (A & B & C & _). cfin.
+  cbnz s3 I3. cfin.
 Qed.
 
 Lemma switch_loop_ok : forall f pos endt value cases s b,
@@ -304,8 +321,7 @@ Proof.
   cexpect intoken s2 H2. destruct H2 as (M2 & K2 & C2 & T2 & W2 & S2).
   destruct (negb (bstr_eqb (t_val intoken) k_in)); [cerr|].
   cpe coll s3 H3. cexpect t4 s4 H4. cw body s5 H5. destruct H5 as (M5 & K5 & I5).
-  unz I5 Hnz5.
-  destruct (c_backup_nz inlen NT eofchk s5 Hi4 K5 Hnz5) as (A & B & C & En). rewrite En. cbn [cbind].
+  cbnz s5 I5. rewrite En. cbn [cbind].
   eapply cpost_bind with (Q1 := fun _ s7 => (cmu s7 <= cmu s5)%nat).
   { destruct (tis (ccur s5) pit_Ifempty); [|cfin]. cexpect t8 s8 H8. cw b2 s9 H9. cfin. }
   intros ie s7 Hi7 Hb7 H7. cbn beta in H7.
@@ -323,8 +339,7 @@ Proof.
   { destruct is_else; [cfin|]. cpe c s0 H0. cfin. }
   intros cond s1 Hi1 Hb1 H1. cbn beta in H1.
   cexpect t2 s2 H2. cw body s3 H3. destruct H3 as (M3 & K3 & I3). cbv zeta.
-  unz I3 Hnz3.
-  destruct (c_backup_nz inlen NT eofchk s3 Hi2 K3 Hnz3) as (A & B & C & En). rewrite En. cbn [cbind].
+  cbnz s3 I3. rewrite En. cbn [cbind].
   destruct (tis (ccur s3) pit_Elseif); [cuse IH|].
   destruct (tis (ccur s3) pit_Else); [cuse IH|].
   destruct (tis (ccur s3) pit_IfEnd); [|cuse IH].
@@ -371,7 +386,7 @@ Proof.
   eapply cpost_bind with (Q1 := fun _ s5 => (cmu s5 <= cmu s3)%nat).
   { tcase tk pit_Equals E.
     - tnz E Hnz. cpe e s0 H0. cfin.
-    - destruct (c_backup_after inlen NT eofchk _ _ _ Hi2 R4) as (A & B & C). cfin. }
+    - cbk R4. cfin. }
   intros dv s5 Hi5 Hb5 H5. cbn beta in H5. cexpect t6 s6 H6. cfin.
 Qed.
 
@@ -428,7 +443,7 @@ Proof.
   { apply special_char_nz in E16. cexpect t2 s2 H2. cfin. }
   destruct (one_of (t_typ token) parser_implicit_print) eqn:E17.
   { apply implicit_print_nz in E17.
-    destruct (c_backup_after inlen NT eofchk _ _ _ Hi R) as (A & B & C).
+    cbk R.
     eapply cpost_bind; [apply cmd_print_ok; auto; unfold kap in *; lia|].
     intros n s' X1 X2 X3. cbn beta in X3. cfin. }
   tcase token pit_Print E18.
@@ -459,7 +474,7 @@ Proof.
   { tnz E3 Hnz.
     apply text_run_step; auto; unfold kap in *; try lia.
     intros txt sp2 nx s4 A4 B4 C4 R4 Hi4. cbn beta. cbn [fst snd].
-    destruct (c_backup_after inlen NT eofchk _ _ _ A4 R4) as (A5 & B5 & C5).
+    cbk R4.
     destruct (rawtext_never_crashes txt (tis token0 pit_Comment) (tis nx pit_Comment)) as (o & Eo). rewrite Eo.
     destruct o; cfin; intros X; discriminate. }
   tcase token pit_LeftDelim E4.
@@ -477,9 +492,9 @@ Lemma item_list_loop_ok : forall f until pos acc s b,
   cpost b (wpost until s)
         (item_list_loop inlen lexq unq parse_expr expr_fuel pe w lf f until pos acc s).
 Proof.
-  induction f as [|f IH]; intros until pos acc s b Hu Hi Hb Hm Hlf' Hf; [lia|].
+  induction f as [|f IH]; intros unt pos acc s b Hu Hi Hb Hm Hlf' Hf; [lia|].
   cbn [item_list_loop]. cnext token s1 R. cbv zeta.
-  eapply cpost_bind; [apply (text_or_tag_ok until s token s1); auto|].
+  eapply cpost_bind; [apply (text_or_tag_ok unt s token s1); auto|].
   intros r s2 Hi2 Hb2 (H2 & H2'). cbn beta.
   destruct (snd r) eqn:Er.
   - destruct (H2' eq_refl) as (X1 & X2). unfold wpost. cfin.
@@ -492,7 +507,7 @@ Theorem item_list_ok : forall fuel until s b,
   until_ok until -> cinv s -> ckap s = b -> (cmu s + 2 <= fuel)%nat ->
   cpost b (wpost until s) (item_list inlen lexq unq parse_expr expr_fuel fuel until s).
 Proof.
-  induction fuel as [|f IH]; intros until s b Hu Hi Hb Hf; [lia|].
+  induction fuel as [|f IH]; intros unt s b Hu Hi Hb Hf; [lia|].
   cbn [item_list].
   apply item_list_loop_ok with (L := Nat.pred f); auto; try lia.
   - intros prec s0 b0 X1 X2 X3.
